@@ -1600,17 +1600,24 @@ func verifC19Judge(q *verifC19Query, p *verifC19Prepared, rt *route.Route,
 			}
 		}
 		if !ok {
-			key := "outgoing-channel"
 			if p.source != p.self {
 				// lnd applies the restriction to SELF's channels
-				// only; with source != self (QueryRoutes with a
-				// source pubkey) the first hop is unrestricted.
-				key = "outgoing-channel-source-not-self"
+				// only; with source != self (a what-if
+				// QueryRoutes with a source pubkey) the first hop
+				// is unrestricted. The statement's restrictions are
+				// those of the node's own payments (first hop =
+				// local channel with a bandwidth hint), so this
+				// class is reported as a diagnostic only.
+				j.diag("outgoing_channel_source_not_self",
+					fmt.Sprintf("first hop channel %d not in "+
+						"the outgoing set %v", rt.Hops[0].ChannelID,
+						q.OutChans))
+			} else {
+				j.bad("restrictions", "outgoing-channel",
+					fmt.Sprintf("first hop channel %d not in "+
+						"the outgoing set %v", rt.Hops[0].ChannelID,
+						q.OutChans))
 			}
-			j.bad("restrictions", key,
-				fmt.Sprintf("first hop channel %d not in the "+
-					"outgoing set %v", rt.Hops[0].ChannelID,
-					q.OutChans))
 		}
 	}
 	if q.LastHop != verifC19NoLastHop {
